@@ -101,7 +101,7 @@ def parse_template(text, variant=None):
             if len(parts) != 3:
                 raise SystemExit(f"template: bad directive: {s}")
             d = dict(kind=m.group(1), file=parts[0], container=parts[1], name=parts[2],
-                     ret=None, subs=[], resubs=[], excepts=[], loops={}, hints=[], spec=[], prologue=[], tags=[], attrs=[], keepattr=False, nobody=False,
+                     ret=None, subs=[], resubs=[], excepts=[], loops={}, hints=[], spec=[], prologue=[], tags=[], attrs=[], specfrom=None, extbody=False, keepattr=False, nobody=False,
                      line=i + 1)
             cur = None
             i += 1
@@ -136,12 +136,12 @@ def parse_template(text, variant=None):
                     key = s.split()[1]
                     d["loops"][key if key == "*" else int(key)] = cur
                 elif s.startswith("//@hint"):
-                    mm = re.match(r"//@hint\s+(after|before)\s+`(.*)`\s*$", s)
+                    mm = re.match(r"//@hintn?\s+(after|before)\s+`(.*)`\s*$", s)
                     if not mm:
                         raise SystemExit(f"template line {i+1}: bad hint: {s}")
                     cur = []
-                    d["hints"].append((mm.group(1), mm.group(2), cur))
-                elif s.startswith("//@spec"):
+                    d["hints"].append((mm.group(1), mm.group(2), cur, s.startswith("//@hintn")))
+                elif s.startswith("//@spec") and not s.startswith("//@specfrom"):
                     cur = d["spec"]
                     tags = re.findall(r"@C\d+", s)
                     d["tags"] = tags
@@ -149,6 +149,10 @@ def parse_template(text, variant=None):
                         cur.append("// @default " + " ".join(tags))
                 elif s.startswith("//@prologue"):
                     cur = d["prologue"]
+                elif s.startswith("//@specfrom"):
+                    d["specfrom"] = s[len("//@specfrom"):].strip()
+                elif s.startswith("//@extbody"):
+                    d["extbody"] = True
                 elif s.startswith("//@attr"):
                     d["attrs"].append(s[len("//@attr"):].strip())
                 elif s.startswith("//@keepattr"):
@@ -443,9 +447,11 @@ def splice_fn(text, d, log):
                 raise LostAnchor(f"{d['name']}: loop #{o} not found (body has {ordinal} loops)")
         # hints
         bstart, bstop = toks[body].start, toks[bend].end
-        for where, anchor, lines in d["hints"]:
+        for where, anchor, lines, optional in d["hints"]:
             pos = text.find(anchor, bstart, bstop)
             if pos < 0:
+                if optional:
+                    continue
                 raise LostAnchor(f"{d['name']}: hint anchor not found: {anchor!r}")
             if text.find(anchor, pos + 1, bstop) >= 0:
                 raise LostAnchor(f"{d['name']}: hint anchor ambiguous: {anchor!r}")
@@ -474,10 +480,18 @@ def splice_fn(text, d, log):
         bend = rs.match_close(toks, body)
         inserts.append((toks[body].start, toks[bend].end, "\n" + spec_txt + "\n;"))
         log.append("NOBODY body dropped (declaration only)")
+    if d.get("extbody") and body is not None:
+        bend = rs.match_close(toks, body)
+        inserts = [x for x in inserts if not (toks[body].start < x[0] <= toks[bend].end)]
+        inserts.append((toks[body].start, toks[bend].end, "{ unimplemented!() }"))
+        log.append("EXTBODY body replaced by unimplemented!() (trait-impl glue; the real body is verified as the inherent twin)")
 
     inserts.sort(key=lambda x: x[0], reverse=True)
     for a, b, s in inserts:
         text = text[:a] + s + text[b:]
+    if d.get("extbody"):
+        if "#[verifier::external_body]" not in d.get("attrs", []):
+            d["attrs"] = list(d.get("attrs", [])) + ["#[verifier::external_body]"]
     if d.get("attrs"):
         lead = re.match(r"\s*", text).group(0)
         text = lead + "\n".join(d["attrs"]) + "\n" + text[len(lead):]
@@ -538,6 +552,7 @@ class Extractor:
         self.repo = repo
         self.expanded = expanded
         self.cache = {}
+        self.spec_registry = {}
 
     def load(self, f):
         if f not in self.cache:
@@ -570,6 +585,19 @@ class Extractor:
     def extract(self, d):
         src, scanned = self.load(d["file"])
         kind = d["kind"]
+        if kind == "fn":
+            if d.get("specfrom"):
+                key = (rs.norm(d["specfrom"]), d["name"])
+                if key not in self.spec_registry:
+                    raise LostAnchor(f"specfrom: no contract registered for {key}")
+                reg = self.spec_registry[key]
+                d = dict(d)
+                d["spec"] = list(reg["spec"])
+                d["tags"] = list(reg["tags"])
+                if reg.get("ret") and not d.get("ret"):
+                    d["ret"] = reg["ret"]
+            else:
+                self.spec_registry[(rs.norm(d["container"]), d["name"])] = dict(spec=list(d["spec"]), tags=list(d["tags"]), ret=d.get("ret"))
         cands = rs.find_item(src, kind, d["container"], d["name"], scanned)
         if not cands:
             raise LostAnchor(f"item not found: {d['file']} | {d['container']} | {kind} {d['name']}")
@@ -619,7 +647,7 @@ class Extractor:
             text = make_fields_pub(text, kind, log)
             if not re.match(r"\s*(#\[[^\]]*\]\s*)*pub\b", text):
                 text = re.sub(r"^(\s*(?:#\[[^\]]*\]\s*)*)(struct|enum|trait|type|const)\b", r"\1pub \2", text, count=1)
-        has_body = it.body_open is not None and not d["nobody"]
+        has_body = it.body_open is not None and not d["nobody"] and not d.get("extbody")
         return text, dict(kind=kind, file=d["file"], container=d["container"], name=d["name"], has_body=has_body,
                           src_line=line, src_bytes=len(raw), rules=log,
                           has_spec=bool(d["spec"]), n_spec_lines=len([l for l in d["spec"] if l.strip() and not l.strip().startswith("//")]),
